@@ -29,7 +29,7 @@ DELIVERABLES, for each change X in {{{V1},{V2}}}, in directory {out}/X/ :
   3. README.md — what the change is, why it breaks the property, what it needs in order to manifest, and the exact commands you ran (with their outcome) to show: (a) demo fails with patch, (b) demo passes without patch, (c) full suite passes with patch.
 
 HOW TO BUILD/TEST (offline sandbox; the module cache is populated):
-  cd {wt} && export GOFLAGS=-mod=mod GOPROXY=off GOSUMDB=off
+  cd {wt} && export PATH=/root/go/pkg/mod/golang.org/toolchain@v0.0.1-go1.25.0.linux-amd64/bin:$PATH GOTOOLCHAIN=local GOFLAGS=-mod=mod GOPROXY=off GOSUMDB=off
   go build ./... ; go vet is not required.
   Full suite: go test -vet=off -count=1 -timeout 25m ./...   (NOTE: in this snapshot three packages fail even without any change — pkg/api/test and pkg/cli/test abort in TestMain because two font fixtures are 0-byte files, and pkg/pdfcpu TestReadTIFFWritePNG fails on a 0-byte fixture; TestReadLargeDictObject* may time out under machine load. 'Passes' therefore means: no failure that the unmodified tree does not also have. Run the baseline once to compare. Takes several minutes; give the shell command a long timeout, e.g. 30 minutes; other jobs share the machine). Tests rewrite some sample PDFs under pkg/samples; ignore those in your diff (git checkout -- pkg/samples before diffing).
   You MUST actually run the full suite with each patch applied and confirm it passes, and run the demo both ways. If a candidate change makes an existing test fail, pick a different change.
